@@ -230,3 +230,59 @@ def initstate(self):
     self.H = [Bits(v, self.wsize) for v in %r]
     self.padmethod = MDpadding(self.blocksize, self.wsize)
 '''
+
+
+# ---- whole-function restatements added after the state/order seeded round (SHA2.__init__ was only read for its tables) ----
+SHA2_INIT = '''
+def __init__(self, size, t=0):
+    assert size in (224, 256, 384, 512)
+    self.size = size
+    self.outlen = self.size // 8
+    self.version = 2
+    if t > 0:
+        assert self.size == 512
+        assert t in (224, 256)
+        self.outlen = t // 8
+    if self.size in (224, 256):
+        self.blocksize = 512
+        self.wsize = 32
+        self.Sigma_0 = lambda x: ror(x, %d) ^ ror(x, %d) ^ ror(x, %d)
+        self.Sigma_1 = lambda x: ror(x, %d) ^ ror(x, %d) ^ ror(x, %d)
+        self.sigma_0 = lambda x: ror(x, %d) ^ ror(x, %d) ^ (x >> %d)
+        self.sigma_1 = lambda x: ror(x, %d) ^ ror(x, %d) ^ (x >> %d)
+        self.K = %r
+    elif self.size > 256:
+        self.blocksize = 1024
+        self.wsize = 64
+        self.Sigma_0 = lambda x: ror(x, %d) ^ ror(x, %d) ^ ror(x, %d)
+        self.Sigma_1 = lambda x: ror(x, %d) ^ ror(x, %d) ^ ror(x, %d)
+        self.sigma_0 = lambda x: ror(x, %d) ^ ror(x, %d) ^ (x >> %d)
+        self.sigma_1 = lambda x: ror(x, %d) ^ ror(x, %d) ^ (x >> %d)
+        self.K = %r
+    self.initstate()
+'''
+SHA2_INITSTATE = '''
+def initstate(self):
+    t = self.outlen * 8
+    if t == 224:
+        H = %r if self.size == t else %r
+    elif t == 256:
+        H = %r if self.size == t else %r
+    elif t == 384:
+        H = %r
+    elif t == 512:
+        H = %r
+    self.H = [Bits(v, self.wsize) for v in H]
+    self.padmethod = SHApadding(self.blocksize, self.wsize)
+'''
+MD5_INIT = '''
+def __init__(self):
+    super().__init__()
+    f = lambda x, y, z: z ^ (x & (y ^ z))
+    g = lambda x, y, z: f(z, x, y)
+    h = lambda x, y, z: x ^ y ^ z
+    i = lambda x, y, z: y ^ (x | ~z)
+    self.ft = [f, g, h, i]
+    self.K = %r
+    self.st = %r
+'''
